@@ -209,16 +209,24 @@ pub fn pool(n: usize, seed: u64) -> Vec<TT> {
     dedup_sorted(v)
 }
 
-/// A family of bounded size: the full `family(level)` when it has at most `cap` members,
-/// otherwise A ∪ C(level 0/1) ∪ B(level 0) — all still completely enumerated.
+/// A family of bounded size: the largest of the combinations A ∪ B(lb) ∪ C(lc), tried from
+/// (level, level) downwards, that has at most `cap` members — each still completely enumerated.
 pub fn family_capped(n: usize, seed: u64, level: usize, cap: usize) -> Vec<TT> {
-    let mut lv = level as isize;
-    while lv >= 0 {
-        let f = family(n, seed, lv as usize);
-        if f.len() <= cap {
-            return f;
+    let mut combos: Vec<(usize, usize)> = Vec::new();
+    for lb in (0..=level).rev() {
+        combos.push((lb, level));
+    }
+    for lc in (0..level).rev() {
+        combos.push((0, lc));
+    }
+    for (lb, lc) in combos {
+        let mut v = named(n);
+        v.extend(low_weight(n, lb));
+        v.extend(word_patterns(n, seed, lc));
+        let v = dedup_sorted(v);
+        if v.len() <= cap {
+            return v;
         }
-        lv -= 1;
     }
     let mut v = named(n);
     v.extend(low_weight(n, 0));
